@@ -133,10 +133,10 @@ def plan_for(prop, tier, seed):
         if withE:
             L = 3 if q else 4
             P.add(bw("hard_lm", kind, suffix="_e"), "E:m=lm,L=%d" % L)
-            P.add(bw("hard_lm2", kind, suffix="_e"), "E:m=lm,L=%d" % L)
+            P.add(bw("hard_lm2", kind, suffix="_e"), "E:m=lm,L=%d" % (2 if q else L))
             P.add(cw("w123", kind, suffix="_e"), "E:m=lm,L=%d" % (2 if q else 3))
             # concrete prefix + 2 symbolic tail bytes, for every proper prefix shape of interest
-            pres = ["6162", "616263"] if q else ["61", "6162", "616263", "6263", "78616263", "6162637861"]
+            pres = ["6162"] if q else ["61", "6162", "616263", "6263", "78616263", "6162637861"]
             for pre in pres:
                 P.add(bw("hard_lm", kind, suffix="_p" + pre), "E:m=lm,L=2,pre=" + pre)
             if not q:
@@ -252,6 +252,9 @@ def plan_for(prop, tier, seed):
         big = corpus.gen_bw_big(rng)
         for n in ((1, 16) if q else vals):
             P.add(Entry("bw_big_n%d" % n, "bytewise", "standard", big, nfb=n), *fams)
+        deep = corpus.gen_bw_deep(random.Random(seed * 77 + 1))
+        for n in ((1, 16) if q else (1, 2, 5, 16)):
+            P.add(Entry("bw_deep_n%d" % n, "bytewise", "standard", deep, nfb=n), *(("T1",) if q else ("T1", "T5")))
         # char-wise: small alphabets give tiny blocks, so eviction happens with few patterns
         cwset = ["ab", "ba", "abab", "bbab", "aabb", "babb", "aaab", "bbba", "abba", "baab", "aaaa", "bbbb"]
         for n in ((1, 16) if q else vals):
